@@ -252,6 +252,9 @@ type SCase struct {
 	Intern  []string `json:"intern"` // names mentioned before the type is declared (decoys and shuffled field names)
 	Methods int      `json:"methods"` // number of extra do-nothing methods
 	Late    int      `json:"late,omitempty"` // methods defined by a second Eval, after the instances exist (top-level form only)
+	// Earlier: an earlier Eval on the same VM declared T without fields and with methods named like the first Earlier
+	// fields (what was a method in an older version of the script is a field now)
+	Earlier int `json:"earlier,omitempty"`
 	NInst   int      `json:"ninst"`
 	UseAliasType bool `json:"use_alias_type"`
 	InFunc  bool     `json:"in_func"`
@@ -293,6 +296,9 @@ func genSCase(rt *rapid.T) *SCase {
 	c.Methods = rx.Pick(rt, "methods", 0, 0, 1, 5, 12, 13, 40)
 	c.Late = rx.Pick(rt, "late", 0, 0, 1, 3, 12, 13, 25, 40)
 	c.NInst = rx.Range(rt, "ninst", 2, 4)
+	if nf > 0 && rx.Chance(rt, "earlier", 1, 4) {
+		c.Earlier = rx.Range(rt, "nearlier", 1, min(nf, 20))
+	}
 	n := rx.Range(rt, "steps", 1, 60)
 	for i := 0; i < n; i++ {
 		op := SOp{Inst: rx.Uniform(rt, c.NInst+1, "inst")} // the extra index is the alias variable
@@ -613,6 +619,18 @@ var goatFieldType = map[string]goatlang.Type{"int": goatlang.TypeInt32, "float64
 func checkS(c *SCase) *ev.Failure {
 	src, want := c.build()
 	vm := goat.New()
+	if c.Earlier > 0 {
+		var sb strings.Builder
+		sb.WriteString("type T struct {\n}\n")
+		for i := 0; i < c.Earlier && i < len(c.Fields); i++ {
+			fmt.Fprintf(&sb, "func (t *T) %s() int { return -1 }\n", c.Fields[i].Name)
+		}
+		sb.WriteString("old := &T{}\nr0 := old." + c.Fields[0].Name + "()\nr0\n")
+		if r0 := vm.Eval(nil, sb.String(), 50_000_000); r0.Failed() || len(r0.Rets) != 1 || r0.Rets[0].Int() != -1 {
+			return &ev.Failure{Kind: "struct", Case: c, Msg: fmt.Sprintf("the earlier declaration of T (no fields, %d methods) failed: %v %s\n--- script\n%s", c.Earlier, r0.RetStrings(), r0.ErrString(), sb.String())}
+		}
+		ev.R().Class("fields_that_were_methods_of_an_earlier_declaration")
+	}
 	r := vm.Eval(nil, src, 50_000_000)
 	mk := func(msg string) *ev.Failure {
 		s := src
